@@ -778,7 +778,7 @@ func ParseContractFile(path string, requirePrefix bool) (*ContractFile, error) {
 			cf.Funcs = append(cf.Funcs, cur)
 			curLemma = nil
 		case "ghost":
-			if cur == nil {
+			if cur == nil || !strings.HasPrefix(strings.TrimSpace(rc.text), "at call ") {
 				f := strings.Fields(rc.text)
 				if len(f) != 2 {
 					return nil, fail(rc, fmt.Errorf("ghost NAME TYPE"))
